@@ -200,6 +200,9 @@ impl Prop for C19 {
         if rng.chance(1, 40) {
             c.layout.padding_kb = *rng.pick(&[9u8, 20, 33]);
         }
+        if rng.chance(1, 30) {
+            c.layout.long_line_kb = *rng.pick(&[9u8, 17, 33, 70]);
+        }
         if rng.chance(1, 25) {
             c.layout.align = Some(crate::model::align::Align { line: rng.below(400) as u16, boundary: *rng.pick(&[0u8, 0, 0, 1, 2, 3]), variant: rng.below(3) as u8 });
         }
@@ -216,7 +219,7 @@ impl Prop for C19 {
                 _ => Chunk::Rand { max: 1 + rng.below(100) as u32, seed: rng.next() },
             };
         }
-        if c.layout.padding_kb > 0 || c.layout.align.is_some() {
+        if c.layout.padding_kb > 0 || c.layout.align.is_some() || c.layout.long_line_kb > 0 {
             if let Chunk::One = c.chunk_r {
                 c.chunk_r = Chunk::Rand { max: 4096, seed: rng.next() };
             }
